@@ -576,8 +576,8 @@ class PB:
         if k == "select":
             return self.select(p)
         if k == "setop":
-            a = PB().select(p["a"], wrap_set_operation_queries=False)
-            b = PB().select(p["b"], wrap_set_operation_queries=False)
+            a = PB().select(p["a"])  # (the SQLite builder's defaults, as a user gets them)
+            b = PB().select(p["b"])
             so = {"UNION": a.union, "UNION ALL": a.union_all, "INTERSECT": a.intersect, "EXCEPT": a.except_of}[p["op"]](b)
             if p["order"]:
                 so = so.orderby(a._selects[0])
